@@ -131,6 +131,20 @@ func runFlowCase(c *vf.Ctx, fc *flowCase) *flowResult {
 				s.Rules = append(s.Rules, pgen.Rule{JobPrefix: fmt.Sprintf("TOP/MID/GENI/fork%d/", k), Len: 1 + n})
 			}
 		}
+		if fc.Template == 18 {
+			// skeleton 17: level flags false; of the two sibling flags one is
+			// true and one false (which one: by seed)
+			for _, pre := range []string{"K", "M"} {
+				for f := 1; f <= 5; f++ {
+					s.Rules = append(s.Rules, pgen.Rule{JobPrefix: fmt.Sprintf("TOP/%sF%d/", pre, f), Bools: "false"})
+				}
+				ab := []string{"true", "false"}
+				if (uint64(fc.Seed)%2 == 1) != (pre == "M") {
+					ab = []string{"false", "true"}
+				}
+				s.Rules = append(s.Rules, pgen.Rule{JobPrefix: "TOP/" + pre + "FA/", Bools: ab[0]}, pgen.Rule{JobPrefix: "TOP/" + pre + "FB/", Bools: ab[1]})
+			}
+		}
 		if fc.Template == 13 && len(s.LenChoices) == 0 {
 			s.LenChoices = []int{3} // skeleton 12: three run-time elements
 		}
